@@ -79,6 +79,14 @@ class Stats:
 
 def _child_run(args):
     stage, prop, case = args
+    # Hypothesis raises the interpreter's recursion limit while a test runs;
+    # the code under test gets what a user's script has: the default limit
+    # (1000 frames) on top of the frames of the harness.
+    import sys
+    depth, frame = 0, sys._getframe()  # pylint: disable=protected-access
+    while frame is not None:
+        depth, frame = depth + 1, frame.f_back
+    sys.setrecursionlimit(1000 + depth)
     ctx = CaseCtx(prop)
     stage.run(case, ctx)
     return ctx.export()
@@ -125,10 +133,12 @@ def execute(stage, prop: str, case, stats: Stats) -> None:
                     stats.known[known["key"]] += 1
                     stats.evaluations += 1
                     return
-                raise Violation(
+                v = Violation(
                     prop, clause, signature,
                     f"no answer within {stage.timeout:.0f} s and again within "
-                    f"{2 * stage.timeout:.0f} s: {details}") from None
+                    f"{2 * stage.timeout:.0f} s: {details}")
+                v.hang = True
+                raise v from None
     else:
         ctx = CaseCtx(prop)
         try:
@@ -160,20 +170,32 @@ def save_violation(prop: str, stage_name: str, case, v: Violation) -> str:
     return str(path)
 
 
+def _is_hang(v) -> bool:
+    """A violation which was established by waiting for a watchdog (twice)."""
+    return bool(getattr(v, "hang", False) or
+                (v.signature and str(v.signature[0]).startswith("hang")))
+
+
 def run_hypothesis(mod, stage, tier, seed, n_examples, stats: Stats) -> None:
     import hypothesis
     from hypothesis import HealthCheck, Phase, given, settings
     prop = mod.ID
     failed: dict[str, Violation] = {}
-    state = {"first_fail_t": None, "last_case": None}
+    state = {"first_fail_t": None, "last_case": None, "hang": False}
     budget = stage.shrink_budget_s[tier]
 
     def body(case):
         key = case_key(case)
+        if key in failed and _is_hang(failed[key]):
+            # a hang which was already confirmed twice: do not wait for it a
+            # third time when Hypothesis replays its final example
+            raise failed[key]
         if state["first_fail_t"] is not None:
             # shrinking: stop spending time once the budget is used up, but
-            # keep every case that really failed failing.
-            if (time.monotonic() - state["first_fail_t"] > budget and
+            # keep every case that really failed failing.  A hang costs three
+            # watchdog periods per attempt and is not shrunk at all.
+            if ((state["hang"] or
+                 time.monotonic() - state["first_fail_t"] > budget) and
                     key not in failed):
                 return
         try:
@@ -181,6 +203,8 @@ def run_hypothesis(mod, stage, tier, seed, n_examples, stats: Stats) -> None:
         except Violation as v:
             failed[key] = v
             state["last_case"] = case
+            if _is_hang(v):
+                state["hang"] = True
             if state["first_fail_t"] is None:
                 state["first_fail_t"] = time.monotonic()
             raise
@@ -243,6 +267,12 @@ def run_enumeration(mod, stage, tier, widx, nw, stats: Stats) -> None:
                 "replay": path
             })
             if len(stats.violations) >= 3:
+                break
+            if _is_hang(v):
+                # every further hanging cell costs three watchdog periods
+                stats.notes.append(
+                    f"{stage.name}: enumeration stopped after a hang "
+                    f"({len(cases[widx::nw])} cells in this share)")
                 break
 
 
